@@ -12,6 +12,8 @@ import time
 
 VERIF = os.path.dirname(os.path.dirname(os.path.abspath(__file__)))
 REPO = os.environ.get("VERIF_REPO", "/repo")
+# exploratory runs (other seeds, scratch trees) can send evidence and replay files elsewhere
+OUT = os.environ.get("VERIF_OUT", VERIF)
 PY = "/venv/bin/python"
 
 CHECKS = {
@@ -178,14 +180,14 @@ def aggregate(pid, meta, tier, seed, results, lost, t0, replay):
             new.append(v)
     # replay files for new violations (one per distinct key + a few more)
     if not replay:
-        shutil.rmtree(os.path.join(VERIF, "replays", pid), ignore_errors=True)
+        shutil.rmtree(os.path.join(OUT, "replays", pid), ignore_errors=True)
     printed = []
     per_key = {}
     for v in new:
         per_key[v["key"]] = per_key.get(v["key"], 0) + 1
         if per_key[v["key"]] > 2 or len(printed) >= 25:
             continue
-        d = os.path.join(VERIF, "replays", pid)
+        d = os.path.join(OUT, "replays", pid)
         os.makedirs(d, exist_ok=True)
         path = os.path.join(d, _digest(v) + ".json")
         with open(path, "w") as f:
@@ -229,11 +231,11 @@ def aggregate(pid, meta, tier, seed, results, lost, t0, replay):
         if meta.get("exhaustive") is not None:
             ev["coverage"]["exhaustive"] = bool(meta["exhaustive"])
         ev["coverage"].update(extra)
-        os.makedirs(os.path.join(VERIF, "evidence"), exist_ok=True)
-        tmp = os.path.join(VERIF, "evidence", pid + ".json.tmp")
+        os.makedirs(os.path.join(OUT, "evidence"), exist_ok=True)
+        tmp = os.path.join(OUT, "evidence", pid + ".json.tmp")
         with open(tmp, "w") as f:
             json.dump(ev, f, indent=1, default=str)
-        os.replace(tmp, os.path.join(VERIF, "evidence", pid + ".json"))
+        os.replace(tmp, os.path.join(OUT, "evidence", pid + ".json"))
     for k in known:
         if k["key"] in known_seen:
             print("KNOWN-FINDING: property=%s %s [%s] (seen %d times)" % (
